@@ -48,6 +48,25 @@ Definition same_geno (g g' : geno) : bool :=
   && list_eqb variant_eqb (g_variants g) (g_variants g')
   && list_eqb (list_eqb (call_equivb (planes g))) (g_rows g) (g_rows g').
 
+(* when the reader dropped the phase plane (_prephased = True) only the alleles can
+   be compared: in order for homozygous, missing and phased calls, as a pair otherwise *)
+Definition allele_equivb (pl : Z) (x y : call) : bool :=
+  let '(a, b, p) := x in
+  let '(a', b', _) := y in
+  if (a =? b) || (pl <? 3) || negb (p =? 0) then (a' =? a) && (b' =? b)
+  else ((a' =? a) && (b' =? b)) || ((a' =? b) && (b' =? a)).
+
+Definition same_alleles (g g' : geno) : bool :=
+  list_eqb Z.eqb (g_samples g) (g_samples g')
+  && list_eqb variant_eqb (g_variants g) (g_variants g')
+  && list_eqb (list_eqb (allele_equivb (planes g))) (g_rows g) (g_rows g').
+
+(* wpre / rpre: the _prephased attribute of the writing / reading object *)
+Definition written (wpre : bool) (g : geno) : geno := if wpre then as_prephased g else g.
+Definition as_read (rpre : bool) (g : geno) : geno := if rpre then drop_phase g else g.
+Definition same_back (wpre rpre : bool) (g g' : geno) : bool :=
+  if rpre then same_alleles (written wpre g) g' else same_geno (written wpre g) g'.
+
 (* ---- PGEN relation --------------------------------------------------------- *)
 
 Definition pair2_eqb := pair_eqb Z.eqb Z.eqb.
@@ -62,16 +81,20 @@ Record pcase := mkpc {
   pc_cw : option Z; pc_cr : option Z;  (* chunk_size for write / read *)
   pc_strict_half : bool;               (* harness switch: demand the round trip also for calls missing in
                                           one allele only (pgenlib cannot store them; default false) *)
+  pc_wpre : bool; pc_rpre : bool;      (* _prephased of the writing / reading object *)
   pc_calls : res (Z * list batch);     (* observed: allele_ct_limit and the append_*_batch calls
                                           (recorder around pgenlib.PgenWriter); Err = write raised *)
   pc_back : res geno                   (* observed: the object haptools read back *)
 }.
 
 Definition model_pgen (k : pcase) : res (Z * list batch) * res geno :=
-  (match pgen_write false (pc_cw k) (pc_g k) with
+  let g := written (pc_wpre k) (pc_g k) in
+  (match pgen_write false (pc_cw k) g with
    | Ok pf => Ok (pf_limit pf, pf_batches pf)
    | Err e => Err e end,
-   pgen_roundtrip_model pload_std false (pc_cw k) (pc_cr k) (pc_g k)).
+   match pgen_roundtrip_model pload_std false (pc_cw k) (pc_cr k) g with
+   | Ok b => Ok (as_read (pc_rpre k) b)
+   | Err e => Err e end).
 
 Definition agree_pgen (k : pcase) : bool :=
   let '(c, b) := model_pgen k in
@@ -81,7 +104,7 @@ Definition agree_pgen (k : pcase) : bool :=
 Definition holds_pgen (k : pcase) : bool :=
   if geno_domb (pc_strict_half k) (pc_g k) && chunk_domb (pc_cw k) && chunk_domb (pc_cr k) then
     match pc_back k with
-    | Ok g' => same_geno (pc_g k) g'
+    | Ok g' => same_back (pc_wpre k) (pc_rpre k) (pc_g k) g'
     | Err _ => false
     end
   else true.
@@ -101,12 +124,14 @@ Definition vfile_eqb (x y : vfile) : bool :=
 Record vcase := mkvc {
   vc_g : geno;
   vc_indexed : bool;          (* a .tbi/.csi index exists beside the file *)
+  vc_wpre : bool; vc_rpre : bool;   (* _prephased of the writing / reading object *)
   vc_file : res vfile;        (* observed: the written file as pysam.VariantFile reads it *)
   vc_back : res geno          (* observed: the object haptools read back (no region) *)
 }.
 
 Definition model_vcf (k : vcase) : vfile * geno :=
-  (vcf_write (vc_g k), vcf_roundtrip_model vload_std false (vc_indexed k) (vc_g k)).
+  let g := written (vc_wpre k) (vc_g k) in
+  (vcf_write g, as_read (vc_rpre k) (vcf_roundtrip_model vload_std false (vc_indexed k) g)).
 
 Definition agree_vcf (k : vcase) : bool :=
   let '(f, b) := model_vcf k in
@@ -115,7 +140,7 @@ Definition agree_vcf (k : vcase) : bool :=
 Definition holds_vcf (k : vcase) : bool :=
   if geno_domb true (vc_g k) then
     match vc_back k with
-    | Ok g' => same_geno (vc_g k) g'
+    | Ok g' => same_back (vc_wpre k) (vc_rpre k) (vc_g k) g'
     | Err _ => false
     end
   else true.
